@@ -38,7 +38,8 @@ def capTable : List (String × Nat) := [
   ("JANET_SANDBOX_NET_LISTEN", 8), ("JANET_SANDBOX_FFI_DEFINE", 16), ("JANET_SANDBOX_FS_WRITE", 32),
   ("JANET_SANDBOX_FS_READ", 64), ("JANET_SANDBOX_HRTIME", 128), ("JANET_SANDBOX_ENV", 256),
   ("JANET_SANDBOX_DYNAMIC_MODULES", 512), ("JANET_SANDBOX_FS_TEMP", 1024), ("JANET_SANDBOX_FFI_USE", 2048),
-  ("JANET_SANDBOX_FFI_JIT", 4096), ("JANET_SANDBOX_SIGNAL", 8192)]
+  ("JANET_SANDBOX_FFI_JIT", 4096), ("JANET_SANDBOX_SIGNAL", 8192),
+  ("JANET_FILE_WRITE", 1), ("JANET_FILE_READ", 2), ("JANET_FILE_APPEND", 4), ("JANET_FILE_UPDATE", 8)]
 
 /-- keyword accepted by `(sandbox …)` ↦ mask it must disable (corelib.c `sandbox_options[]`). -/
 def keywordTable : List (String × Nat) := [
@@ -170,11 +171,26 @@ def needOpen (md : Nat) : List Mask :=
   (if acc == 0 || acc == 2 || acc == 3 then [capFsRead] else []) ++
   (if acc == 1 || acc == 2 || acc == 3 || md &&& 64 != 0 || md &&& 512 != 0 then [capFsWrite] else [])
 
+/-! fopen: the mode string is parsed by io.c `checkflags`, whose result (JANET_FILE_* bits: WRITE 1, READ 2, APPEND 4,
+    UPDATE 8) says what the file will be opened for.  The translator tracks that result variable in the functions listed in
+    `modeFunctions` and places the pseudo call `janet-file-flags` where the value is handed back: at that point the
+    capabilities matching the parsed mode must have been asserted.  ("w+" truncates: write-kind only; "a+" can read what
+    was there.)  That libc's fopen reads the same string the same way is part of the trusted base and is compared with the
+    observed mode strings by the dynamic sweep. -/
+abbrev fileFlagsRelevant : Nat := 1 ||| 2 ||| 4 ||| 8
+
+def modeFunctions : List (String × String) := [("checkflags", "janet-file-flags")]
+
+def needFileFlags (md : Nat) : List Mask :=
+  (if md &&& (1 ||| 4 ||| 8) != 0 then [capFsWrite] else []) ++
+  (if md &&& 2 != 0 || (md &&& 4 != 0 && md &&& 8 != 0) then [capFsRead] else [])
+
 /-- requirement of call `name` made from C function `fn` while the tracked flags variable of the activation is `md`
     (`[]` = nothing required) -/
 def need (fn name : String) (md : Nat) : List Mask :=
   if exempt.contains (fn, name) then []
   else if openLike.contains name then needOpen md
+  else if name == "janet-file-flags" then needFileFlags md
   else (lookup name sensitive).getD []
 
 /-- every external symbol of the program is classified (sensitive or reviewed-benign) -/
